@@ -1,3 +1,4 @@
+import TmcgProps.C16SignRun
 import TmcgProps.C16Cgjkr
 import TmcgProps.C16Sign
 import TmcgProofs.Tsig
